@@ -22,6 +22,7 @@ import signal
 from . import core
 
 PROP = "C14"
+MIN_RUNS = {"quick": 2000, "thorough": 0}  # the quick tier explores the same runs on a loaded machine (the budget only stops it beyond these)
 DPS = 60
 TOL = 1e-30
 OP_WALL_S = 20.0  # wall guard only: exceeding it is *inconclusive*, never a verdict
